@@ -817,9 +817,20 @@ class SymBiogeme:
         if len(betaIds) != n:
             raise EngineError('Gradient: inconsistent dimensions')
         F, G, H, B = self._like(betas, fixedBetas, betaIds, hessian, bhhh)
-        g = np.empty(n, dtype=object)
-        h = np.empty((n, n), dtype=object)
-        b = np.empty((n, n), dtype=object)
+        # the engine writes the derivatives into the memory it is given and returns that memory: the arrays returned for
+        # one and the same buffer are therefore one and the same object (a caller that reuses buffers aliases its results)
+        if not hasattr(self, '_memory'):
+            self._memory = {}
+
+        def result_for(mem, shape):
+            slot = self._memory.get(id(mem))
+            if slot is None or slot[0] is not mem or slot[1].shape != shape:
+                slot = (mem, np.empty(shape, dtype=object))
+                self._memory[id(mem)] = slot  # (the buffer is kept alive, so its id is not reused)
+            return slot[1]
+        g = result_for(gmem, (n,))
+        h = result_for(hmem, (n, n))
+        b = result_for(bmem, (n, n))
         for i in range(n):
             g[i] = out(G[i])
             for j in range(n):
